@@ -15,12 +15,17 @@ package ctfe
 
 import (
 	"bytes"
+	"crypto/rand"
 	"crypto/sha256"
 	stdx509 "crypto/x509"
+	"crypto/x509/pkix"
 	"encoding/base64"
 	"encoding/json"
 	"fmt"
+	"math/big"
+	"os"
 	"sort"
+	"strconv"
 	"strings"
 	"testing"
 	"time"
@@ -77,6 +82,33 @@ func c02Intern(m map[string]int, k string) int {
 	return m[k]
 }
 
+// c02EntrustSPKI: the one SubjectPublicKeyInfo CheckSignatureFrom exempts from the CA conditions
+// (unexported in package x509; read from the source of the tree under test, nil if not found).
+var c02EntrustSPKI = func() []byte {
+	src, err := os.ReadFile("../../x509/x509.go")
+	if err != nil {
+		return nil
+	}
+	i := bytes.Index(src, []byte("var entrustBrokenSPKI = []byte{"))
+	if i < 0 {
+		return nil
+	}
+	body := src[i+len("var entrustBrokenSPKI = []byte{"):]
+	j := bytes.IndexByte(body, '}')
+	if j < 0 {
+		return nil
+	}
+	var out []byte
+	for _, f := range strings.FieldsFunc(string(body[:j]), func(r rune) bool { return r == ',' || r == ' ' || r == '\n' || r == '\t' }) {
+		v, err := strconv.ParseUint(strings.TrimPrefix(f, "0x"), 16, 8)
+		if err != nil {
+			return nil
+		}
+		out = append(out, byte(v))
+	}
+	return out
+}()
+
 var c02StdCache = map[[32]byte]*stdx509.Certificate{}
 var c02SigCache = map[[64]byte]bool{}
 
@@ -118,7 +150,8 @@ func (k *c02Case) add(c *x509.Certificate) int {
 	k.certs = append(k.certs, c)
 	a := c02Abs{subj: c02Intern(k.names, string(c.RawSubject)), iss: c02Intern(k.names, string(c.RawIssuer)), aki: -1, ski: -1,
 		ver: c.Version, bc: c.BasicConstraintsValid, ca: c.IsCA, ku: int(c.KeyUsage),
-		pk: c.PublicKeyAlgorithm != x509.UnknownPublicKeyAlgorithm, notAfter: c.NotAfter.UnixNano(), poison: "a"}
+		pk: c.PublicKeyAlgorithm != x509.UnknownPublicKeyAlgorithm, notAfter: c.NotAfter.UnixNano(), poison: "a",
+		entrust: len(c02EntrustSPKI) > 0 && bytes.Equal(c.RawSubjectPublicKeyInfo, c02EntrustSPKI)}
 	if len(c.AuthorityKeyId) > 0 {
 		a.aki = c02Intern(k.kids, string(c.AuthorityKeyId))
 	}
@@ -1134,6 +1167,29 @@ func c02Fixed(e *c02Env) {
 		got := e.eval(kc, []string{"leaf", "anchor:" + k.name}, neutral, 1)
 		if got != k.ok {
 			e.out.Fail("fixed: trust anchor "+k.name, fmt.Sprintf("admitted=%v, want %v", got, k.ok))
+		}
+		if k.name == "basic-constraints-not-ca" && len(c02EntrustSPKI) > 0 {
+			// the documented exception: a certificate carrying the Entrust SubjectPublicKeyInfo may be signed by a
+			// certificate whose basic constraints deny CA (as trust anchor; an intermediate still has to be a CA)
+			if pub, err := stdx509.ParsePKIXPublicKey(c02EntrustSPKI); err == nil {
+				tmpl := &stdx509.Certificate{SerialNumber: big.NewInt(424242), Subject: pkix.Name{CommonName: "entrust-keyed child"},
+					NotBefore: time.Date(2020, 1, 1, 0, 0, 0, 0, time.UTC), NotAfter: time.Date(2040, 1, 1, 0, 0, 0, 0, time.UTC),
+					KeyUsage: stdx509.KeyUsageDigitalSignature, BasicConstraintsValid: true}
+				anchorKU0 := vIssue(vSpec{cn: "fixed anchor not-ca without key usage", key: keys[4+i], isCA: false, keyUsage: 0})
+				parent := &stdx509.Certificate{RawSubject: anchorKU0.c.RawSubject, SubjectKeyId: anchorKU0.c.SubjectKeyId}
+				if der, err := stdx509.CreateCertificate(rand.Reader, tmpl, parent, pub, anchorKU0.key.priv); err == nil {
+					kc := c02NewCase([]*vCert{anchorKU0}, [][]byte{der})
+					if got := e.eval(kc, []string{"entrust-keyed leaf", "anchor:not-ca"}, neutral, 1); !got {
+						e.out.Fail("fixed: entrust exception", "a certificate with the Entrust SubjectPublicKeyInfo under a non-CA trust anchor was rejected")
+					}
+					other := vIssue(vSpec{cn: "ordinary child of the non-CA anchor", key: keys[10], issuer: anchorKU0, keyUsage: stdx509.KeyUsageDigitalSignature})
+					kc = c02NewCase([]*vCert{anchorKU0}, [][]byte{other.der})
+					if got := e.eval(kc, []string{"ordinary leaf", "anchor:not-ca"}, neutral, 1); got {
+						e.out.Fail("fixed: entrust exception", "an ordinary certificate under a non-CA trust anchor was admitted")
+					}
+					e.out.Count("class:entrust-exception")
+				}
+			}
 		}
 		if i == 0 {
 			// the same anchor as an X.509 v1 certificate (no basic constraints possible): may sign
